@@ -728,7 +728,9 @@ class Processes:
             # the visibility of 'debug' commands from external processes
             log.warning(lazymsg('api.response.content process={p} response={r}', p=process, r=string), 'api')
 
-        data = bytes(f'{string}\n', 'ascii')
+        # events are ASCII on the pipe: the text encoder keeps printable non-ASCII characters a peer chose
+        # (host names, shutdown communication, BGP-LS names); they are escaped here rather than allowed to raise
+        data = f'{string}\n'.encode('ascii', 'backslashreplace')
 
         # In async mode, queue the write instead of blocking
         if self._async_mode:
@@ -849,7 +851,7 @@ class Processes:
             # the visibility of 'debug' commands from external processes
             log.warning(lazymsg('api.response.content process={p} response={r}', p=process, r=string), 'api')
 
-        data = bytes(f'{string}\n', 'ascii')
+        data = f'{string}\n'.encode('ascii', 'backslashreplace')
 
         # Get stdin file descriptor (non-blocking, set in _start())
         stdin_fd = self._get_stdin(process).fileno()
